@@ -512,6 +512,12 @@ def c05_family(tier, n):
               sink('F', ['B', 'D?;main>side']), sink('G', ['D'])]
         out.append(timely(scn(f'ephemeral-rejoin-g/{db}', fs), quiet=900))
 
+    # a multi-topic '?' source next to a synchronized one: an ephemeral set is handed over complete or not at all
+    for order in ['eph-first', 'sync-first']:
+        srcs = ['side?;main>side;aux>side2', 'src'] if order == 'eph-first' else ['src', 'side?;main>side;aux>side2']
+        fs = [src(n, required='snk', period=40), src(n + 4, 'side', period=25, topics=['main', 'aux']), sink('snk', srcs)]
+        out.append(timely(scn(f'mixed2topics/{order}', fs), quiet=800))
+
     # killed listener (hard kill at every step of the reference run)
     for m in ['?', '??']:
         fs = base(40) + [sink('lis0', [f'src{m}'])]
@@ -558,6 +564,17 @@ def c07_family(tier, n):
     out.append(scn('bal2/fast-splitter', balance(n, (40, 130), split_period=0)))
     out.append(scn('bal2/slow-splitter', balance(n, (0, 40), split_period=40)))
     out.append(scn('bal2/watcher', balance(n, (40, 0), watcher=True)))
+
+    # a '?' watcher on one branch (registered before / after the branch's worker), workers of unequal speed
+    for speeds in [(130, 0), (0, 130)]:
+        for late in [0, 60]:
+            fs = balance(n + 3, speeds)
+            fs.append({**sink('watch', ['w0?']), 'start_at': late})
+            out.append(scn(f'bal2-qwatcher/{speeds}/late{late}', fs))
+
+    # the logging switches must not change what is delivered
+    for speeds in [(40, 0), (0, 130)]:
+        out.append(scn(f'bal2-nowarn/{speeds}', balance(n + 2, speeds), warn_older=False, warn_newer=False))
     out.append(scn('bal2/slow-joiner', balance(n, (0, 40), join_ops=[('slow', 60)])))
 
     # a worker that exits cleanly (CLOSE) while the other one still holds an older frame: nothing stale may surface afterwards
@@ -624,6 +641,17 @@ def c06_family(tier):
 
     for v in ['src', 'b1', 'snk'] if full else ['b1', 'snk']:
         mk(f'rejoin2/{v}', rj(), [v], delays)
+
+    # balanced pipeline: a worker is killed and restarted while the other branch keeps the stream going (slow and fast splitter)
+    for sp in [10, 60]:
+        for v in ['w1', 'w0']:
+            fs = balance(N, (0, 0), split_period=sp)
+            mk(f'bal2/{v}/sp{sp}', fs, [v], [0, 300])
+
+    # the source is restarted while its synchronized consumer is busy and a '?' listener is served first
+    for slow in [0, 150]:
+        fs = [src(N, period=period), sink('snk', ['src'], [('slow', slow)] if slow else []), sink('lis', ['src?;main>x'])]
+        mk(f'chain2+listener/src/slow{slow}', fs, ['src'], [0, 300])
 
     # graceful stop (stop event: shutdown runs, CLOSE is sent, sockets are closed) and restart under the same id
     for v in ['src', 'mid', 'snk']:
